@@ -89,6 +89,11 @@ from tensordict.utils import (
 )
 from torch import Tensor
 
+try:
+    from torch.compiler import is_compiling
+except ImportError:  # torch 2.0
+    from torch._dynamo import is_compiling
+
 
 _has_functorch = False
 try:
@@ -2773,7 +2778,10 @@ class LazyStackedTensorDict(TensorDictBase):
     def share_memory_(self) -> T:
         for td in self.tensordicts:
             td.share_memory_()
-        self.lock_()
+        # every member is locked by now, so ``is_locked`` (derived) is already True and
+        # ``lock_()`` would return early: register the stack in the lock graph explicitly,
+        # or a member could be unlocked on its own
+        self._propagate_lock(is_compiling=is_compiling())
         return self
 
     def detach_(self) -> T:
